@@ -86,7 +86,7 @@ def kclasses(ts):
     if any(ts[i] == ("st",) and ts[i + 1][0] == "lit" and ts[i + 1][2] for i in range(len(ts) - 1)):
         out["star-before-escape:undermatch"] = {"under"}
     # (3) after '**' the translator stays in "globstar mode" until the next literal other than
-    #     '/', '*' or an escaped backslash: '/' is swallowed and single asterisks are dropped
+    #     '/', '*', an escaped backslash or an escaped asterisk: '/' is swallowed and single asterisks are dropped
     for i, t in enumerate(ts):
         if t != ("gs",):
             continue
@@ -101,8 +101,8 @@ def kclasses(ts):
                 out.setdefault("globstar-mode:swallow", set()).add("over")
                 if seen_bs:
                     out["globstar-mode:swallow"].add("under")
-            elif u[0] == "lit" and u[1] == "\\":
-                seen_bs = True
+            elif u[0] == "lit" and u[2] and u[1] in ("\\", "*"):
+                seen_bs = True  # an escaped backslash / asterisk does not end globstar mode either
             else:
                 break
             j += 1
